@@ -203,6 +203,8 @@ type Case struct {
 	FirstBuffer bool   `json:"first_buffer,omitempty"`
 	ResetAfter  int    `json:"reset_after,omitempty"`
 	IsReset     bool   `json:"is_reset,omitempty"`
+	// ExplicitFalse: the Decoder is made with AllowDuplicateNames(false) and AllowInvalidUTF8(false) spelled out
+	ExplicitFalse bool `json:"explicit_false,omitempty"`
 }
 
 // maxSteps bounds one execution: the longest documents (8 KiB boundary sweeps of two-byte values) have ~4100 tokens;
@@ -324,7 +326,17 @@ func (x *runner) faulty(in []byte, program string, base []obs) string {
 		o, err := step(x.dec, op)
 		if errors.Is(err, errInjected) || (op == 'P' && o.kind == 0 && base[i].kind != 0 && !pendingPeek) {
 			if op == 'S' {
-				return "" // SkipValue is outside the retry clause
+				// SkipValue is outside the retry clause (what it consumed before the fault is not specified), but the reader
+				// failed exactly once: no later call may report that fault again, and PeekKind must look at the input again
+				for j := 0; j < 3; j++ {
+					x.dec.PeekKind()
+					if _, e := step(x.dec, 'T'); errors.Is(e, errInjected) {
+						return fmt.Sprintf("call %d: SkipValue reported the transient fault; read call #%d after it reports the same fault again although the reader failed only once", i+1, j+1)
+					} else if e != nil {
+						break
+					}
+				}
+				return ""
 			}
 			if op == 'P' && err == nil {
 				// PeekKind reports failure as kind 0; the cached error is returned (and cleared) by the next read call.
@@ -458,6 +470,9 @@ func report(r *evid.Run, cs Case, msg string) {
 		}
 	}
 	key := fmt.Sprintf("c05|%q|%s|%+v|dup=%v", cs.Input, cs.Program, cs.Sched, cs.AllowDup)
+	if cs.ExplicitFalse {
+		key += "|explicit-false"
+	}
 	if cs.IsReset {
 		cs.First = append([]byte(nil), cs.First...)
 		key += fmt.Sprintf("|reset|%d|%.40q|%+v|%v", cs.ResetAfter, cs.First, cs.FirstSched, cs.FirstBuffer)
@@ -480,6 +495,9 @@ func ReplayCase(cs Case) string {
 		x := newRunner()
 		if cs.AllowDup {
 			x.opts = []jsontext.Options{jsontext.AllowDuplicateNames(true)}
+		}
+		if cs.ExplicitFalse {
+			x.opts = []jsontext.Options{jsontext.AllowDuplicateNames(false), jsontext.AllowInvalidUTF8(false)}
 		}
 		if cs.Prime > 0 {
 			doc := append(append([]byte{'"'}, bytes.Repeat([]byte{'x'}, cs.Prime)...), '"')
@@ -633,6 +651,7 @@ func Run(r *evid.Run) {
 	r.Rule("environment-answer exploration of a real jsontext.Decoder: for every document of the class, every call program (ReadToken/ReadValue/SkipValue/PeekKind; exhaustive up to a length, then <=2 deviations from all-ReadToken) is first run on the whole input (*bytes.Buffer) and checked against the reference decoder model (valid streams), then re-run under every reader schedule of the class (all 2^(n-1) cut sets for short inputs, else <=2 cuts and the one-byte reader; x empty reads x data-with-EOF), comparing every call's token/value/error key/InputOffset/StackDepth/StackIndex/StackPointer and the invariant bytes-taken == InputOffset ++ UnreadBuffer; single transient faults before every Read call with retry; buffer-boundary sweeps around 64..8192; UnmarshalRead/UnmarshalDecode vs Unmarshal. evaluations = executions (document x program x schedule); distinct_nontrivial = distinct (document, program, schedule) executions whose schedule has at least one deviation (cut, empty read, data+EOF or fault)")
 	r.Assume("reference decoder model (internal/refjson/decmodel.go) for valid streams", "a *bytes.Buffer source is 'the whole byte slice'", "error message text is never compared")
 	resetFamily(r)
+	nameScopes(r)
 	quick := r.Tier != "thorough"
 	// class (a): exhaustive on short documents; class (b): deviation-bounded on longer ones
 	exhLen, exhProg := 5, 4
@@ -655,7 +674,7 @@ func Run(r *evid.Run) {
 	}
 	progFault := map[int][]string{}
 	for n := 1; n <= 16; n++ {
-		progFault[n] = programs(min(n, bndProg), 1, "TVP")
+		progFault[n] = programs(min(n, bndProg), 1, "TVPS")
 	}
 	// the targeted families run first, the large exhaustive enumeration last (an internal deadline then only cuts the latter short)
 	boundarySweeps(r)
@@ -694,17 +713,22 @@ func Run(r *evid.Run) {
 				progs = progExh[min(ntok, 16)]
 			}
 			scheds := schedules(len(in), exhaustive)
-			for _, dup := range []bool{false, true} {
-				if dup && !bytes.Contains(in, []byte(`"`)) {
+			for mode := 0; mode < 3; mode++ {
+				dup, explicit := mode == 1, mode == 2
+				if mode > 0 && !bytes.Contains(in, []byte(`"`)) {
 					continue
 				}
 				x.opts = nil
 				if dup {
 					x.opts = []jsontext.Options{jsontext.AllowDuplicateNames(true)}
 				}
+				if explicit {
+					// the defaults spelled out: "present with value false" must behave like "absent"
+					x.opts = []jsontext.Options{jsontext.AllowDuplicateNames(false), jsontext.AllowInvalidUTF8(false)}
+				}
 				for _, p := range progs {
 					base := x.baseline(in, p)
-					x.cur = Case{Input: in, Program: p, AllowDup: dup}
+					x.cur = Case{Input: in, Program: p, AllowDup: dup, ExplicitFalse: explicit}
 					if m := model(in, p, base, refjson.Opts{AllowDupNames: dup}); m != "" {
 						report(r, x.cur, "whole-input decoding vs reference model: "+m)
 						continue
@@ -732,7 +756,7 @@ func Run(r *evid.Run) {
 						for k := 1; k <= len(in)+3; k++ {
 							sc := shape
 							sc.FaultAt = k
-							x.cur = Case{Input: in, Program: p, Sched: sc, AllowDup: dup}
+							x.cur = Case{Input: in, Program: p, Sched: sc, AllowDup: dup, ExplicitFalse: explicit}
 							evals++
 							nontriv++
 							if m := x.chunked(in, p, sc, base); m != "" {
